@@ -73,7 +73,7 @@ TJoin == /\ IsEvent("Join") /\ ByCur /\ Ins.op = "join" /\ phase[cur] = "go" /\ 
 TSleep == /\ IsEvent("Sleep") /\ ByCur /\ Ins.op = "sleep" /\ phase[cur] = "go" /\ Exec /\ PostMatch
 \* one run of sexp_scheduler: the chosen thread and the number of timed-out sleepers are bound from the log
 TSched == /\ IsEvent("Sched") /\ ByCur /\ must
-          /\ ScheduleWith(Ev.ntimed)
+          /\ ScheduleWith(Ev.ntimed, Ev.selftimed = 1)
           /\ cur' = Ev.res
           /\ PostMatch
           /\ (Ev.rw[1] = 1) = waitp'[cur'] /\ (Ev.rw[2] = 1) = timeoutp'[cur'] /\ (Ev.rw[3] = 1) = alive'[cur']
